@@ -180,6 +180,10 @@ func (sq *Queue) VerifQuotaPreemptable() (*resources.Resource, map[string]*resou
 		return qpc.preemptableResource, out
 	}
 	leafQueues := make(map[*Queue]*QuotaPreemptionContext)
+	if resources.IsZero(qpc.preemptableResource) {
+		// as tryPreemption: nothing to distribute
+		return qpc.preemptableResource, out
+	}
 	getChildQueuesPreemptableResource(sq, qpc.preemptableResource, leafQueues)
 	for q, c := range leafQueues {
 		out[q.GetQueuePath()] = c.preemptableResource
